@@ -82,6 +82,14 @@ func (e *Error) AddContext(c Cont, depth int) *Error {
 			if _, ok := c.(*LuaCont); ok {
 				break
 			}
+			// A Termination stands for the Lua continuation that created it
+			// (e.g. to call a metamethod): its debug info is that
+			// continuation's, and its Parent() skips it.
+			if term, ok := c.(*Termination); ok {
+				if _, ok := term.parent.(*LuaCont); ok {
+					break
+				}
+			}
 			c = c.Parent()
 		}
 	}
